@@ -5,6 +5,7 @@ import (
 	"bytes"
 	"fmt"
 	"io"
+	"net"
 	"net/http"
 	"net/http/httptest"
 	"regexp"
@@ -17,6 +18,7 @@ import (
 
 	"github.com/gofiber/fiber/v3"
 	"github.com/gofiber/fiber/v3/middleware/adaptor"
+	"github.com/valyala/fasthttp"
 	"github.com/valyala/fasthttp/fasthttputil"
 	"pgregory.net/rapid"
 
@@ -526,6 +528,42 @@ func TestTaint(t *testing.T) {
 				}
 				d := uint64(g)<<32 | uint64(i)
 				vk.Rec.Count("taint", d, true, []string{"concurrent-response"}, func() any { return map[string]string{"request": req[:80]} })
+			}
+		}(g)
+	}
+	wg.Wait()
+	// second phase, without connections in between: many goroutines dispatch in process as fast as they can (what a
+	// loaded server's workers do); a value that lives in a pooled buffer a moment too long shows up here
+	h := app.Handler()
+	workers, perWorker := 16, 6000
+	if vk.Tier() == "thorough" {
+		perWorker = 20000
+	}
+	for g := 0; g < workers; g++ {
+		wg.Add(1)
+		go func(g int) {
+			defer wg.Done()
+			for i := 0; i < perWorker; i++ {
+				tok := fmt.Sprintf("T%dx%dT", 1000+g, i)
+				var req fasthttp.Request
+				req.Header.SetMethod("POST")
+				req.SetRequestURI("/t/" + tok + "?a=Q" + tok)
+				req.Header.Set("X-A", "H"+tok)
+				fctx := &fasthttp.RequestCtx{}
+				fctx.Init(&req, &net.TCPAddr{IP: net.IPv4(10, 0, 0, 9), Port: 1234}, nil)
+				h(fctx)
+				all := string(fctx.Response.Header.Peek("X-Own")) + "|" + string(fctx.Response.Header.Peek("Content-Disposition")) + "|" + string(fctx.Response.Header.Peek("Link")) + "|" + string(fctx.Response.Body())
+				atomic.AddInt64(&total, 1)
+				for _, cand := range tokRe.FindAllString(all, -1) {
+					if cand != tok {
+						atomic.AddInt64(&bad, 1)
+						first.CompareAndSwap(nil, fmt.Sprintf("request %s (dispatched in process next to %d others) saw foreign token %s in %q", tok, workers-1, cand, all))
+					}
+				}
+				if !strings.Contains(string(fctx.Response.Header.Peek("Content-Disposition")), "report-"+tok+".pdf") {
+					atomic.AddInt64(&bad, 1)
+					first.CompareAndSwap(nil, fmt.Sprintf("request %s: Content-Disposition is %q, want its own file name report-%s.pdf", tok, fctx.Response.Header.Peek("Content-Disposition"), tok))
+				}
 			}
 		}(g)
 	}
